@@ -113,7 +113,7 @@ theorem length_pos_of_ne {α} (l : List α) (h : l ≠ []) : 0 < l.length := by
 theorem step_punct (mid post : List IRule) (hmid : ∀ m ∈ mid, DeclinesAtBackslash m) (t0 pre rest : List Char)
     (c : Char) (hc : isAsciiPunct c = true) (ht0 : t0 = pre ++ c :: rest) (s : IState) (h : LitState t0 pre s) :
     ∃ s2, runChain (ruleText :: (mid ++ ruleEscape :: post)) s = .ok (true, s2) ∧ LitState t0 (pre ++ [c]) s2
-      ∧ s.pos < s2.pos := by
+      ∧ s.pos < s2.pos ∧ s2.delimiters = s.delimiters ∧ s2.metas = s.metas := by
   have hsrc : s.src = escapeAll pre ++ ('\\' :: c :: escapeAll rest) := by
     rw [h.src, ht0, escapeAll_append]
     simp [escapeAll, hc]
@@ -125,7 +125,12 @@ theorem step_punct (mid post : List IRule) (hmid : ∀ m ∈ mid, DeclinesAtBack
   have hmax : s.pos + 1 < s.posMax := by rw [h.posMax]; exact hlen
   have htext := text_declines_at_backslash s h0 (by omega)
   have hesc := escape_punct s c hc h0 h1 hmax
-  refine ⟨{ (s.push "text_special" "" 0 (String.singleton c) (String.ofList ['\\', c]) "escape") with pos := s.pos + 2 }, ?_, ?_, ?_⟩
+  refine ⟨{ (s.push "text_special" "" 0 (String.singleton c) (String.ofList ['\\', c]) "escape") with pos := s.pos + 2 }, ?_, ?_, ?_, ?_, ?_⟩
+  rotate_left 3
+  · show (s.push "text_special" "" 0 (String.singleton c) (String.ofList ['\\', c]) "escape").delimiters = s.delimiters
+    unfold IState.push IState.pushPending; simp only; split <;> rfl
+  · show (s.push "text_special" "" 0 (String.singleton c) (String.ofList ['\\', c]) "escape").metas = s.metas
+    unfold IState.push IState.pushPending; simp only; split <;> rfl
   · simp only [runChain, htext]
     rw [runChain_declines mid hmid _ s h0]
     simp only [runChain, hesc]
@@ -141,7 +146,8 @@ theorem step_plain (tail : List IRule) (t0 pre run rest2 : List Char) (hrun : ru
     (hplain : ∀ c ∈ run, isAsciiPunct c = false ∧ c ≠ '\n')
     (hrest2 : rest2 = [] ∨ ∃ d r, rest2 = d :: r ∧ isAsciiPunct d = true)
     (ht0 : t0 = pre ++ run ++ rest2) (s : IState) (h : LitState t0 pre s) :
-    ∃ s2, runChain (ruleText :: tail) s = .ok (true, s2) ∧ LitState t0 (pre ++ run) s2 ∧ s.pos < s2.pos := by
+    ∃ s2, runChain (ruleText :: tail) s = .ok (true, s2) ∧ LitState t0 (pre ++ run) s2 ∧ s.pos < s2.pos
+      ∧ s2.delimiters = s.delimiters ∧ s2.metas = s.metas := by
   have hesc_run : escapeAll run = run := escapeAll_plain run (fun c hc => (hplain c hc).1)
   have hsrc : s.src = escapeAll pre ++ (run ++ escapeAll rest2) := by
     rw [h.src, ht0, escapeAll_append, escapeAll_append, hesc_run, List.append_assoc]
@@ -164,7 +170,7 @@ theorem step_plain (tail : List IRule) (t0 pre run rest2 : List Char) (hrun : ru
   have htake : (s.src.take (s.pos + run.length)).drop s.pos = run := by
     rw [hsrc, h.pos, List.take_length_add_append]
     simp
-  refine ⟨{ s with pending := s.pending ++ run, pos := s.pos + run.length }, ?_, ?_, ?_⟩
+  refine ⟨{ s with pending := s.pending ++ run, pos := s.pos + run.length }, ?_, ?_, ?_, rfl, rfl⟩
   · have hne : (s.pos + run.length == s.pos) = false := by
       simp; omega
     simp only [runChain, ruleText, hend, hne, Bool.false_eq_true, if_false, htake]
@@ -209,7 +215,8 @@ theorem loop_literal (mid post : List IRule) (hmid : ∀ m ∈ mid, DeclinesAtBa
     (t0 : List Char) (hlf : '\n' ∉ t0) :
     ∀ (n : Nat) (rest pre : List Char) (s : IState) (fuel : Nat) (ok : Bool), rest.length ≤ n → t0 = pre ++ rest →
       LitState t0 pre s → s.posMax - s.pos < fuel →
-      ∃ s', tokenizeLoop (ruleText :: (mid ++ ruleEscape :: post)) mn s.posMax fuel ok s = .ok s' ∧ LitState t0 t0 s' := by
+      ∃ s', tokenizeLoop (ruleText :: (mid ++ ruleEscape :: post)) mn s.posMax fuel ok s = .ok s' ∧ LitState t0 t0 s'
+        ∧ s'.delimiters = s.delimiters ∧ s'.metas = s.metas := by
   intro n
   induction n with
   | zero =>
@@ -220,7 +227,7 @@ theorem loop_literal (mid post : List IRule) (hmid : ∀ m ∈ mid, DeclinesAtBa
     have hpos : ¬ (s.pos < s.posMax) := by rw [h.posMax, h.pos, h.src]; omega
     cases fuel with
     | zero => omega
-    | succ f => exact ⟨s, by simp [tokenizeLoop, hpos], h⟩
+    | succ f => exact ⟨s, by simp [tokenizeLoop, hpos], h, rfl, rfl⟩
   | succ k ih =>
     intro rest pre s fuel ok hl ht0 h hf
     cases rest with
@@ -229,7 +236,7 @@ theorem loop_literal (mid post : List IRule) (hmid : ∀ m ∈ mid, DeclinesAtBa
       have hpos : ¬ (s.pos < s.posMax) := by rw [h.posMax, h.pos, h.src]; omega
       cases fuel with
       | zero => omega
-      | succ f => exact ⟨s, by simp [tokenizeLoop, hpos], h⟩
+      | succ f => exact ⟨s, by simp [tokenizeLoop, hpos], h, rfl, rfl⟩
     | cons c rest' =>
       have hposlt : s.pos < s.posMax := by
         rw [h.posMax, h.pos, h.src, ht0, escapeAll_append, List.length_append]
@@ -241,10 +248,11 @@ theorem loop_literal (mid post : List IRule) (hmid : ∀ m ∈ mid, DeclinesAtBa
         have hlvl : s.level < mn := by rw [h.level]; omega
         -- one step of the chain
         have hstep : ∃ s2 pre2 rest2, runChain (ruleText :: (mid ++ ruleEscape :: post)) s = .ok (true, s2)
-            ∧ LitState t0 pre2 s2 ∧ s.pos < s2.pos ∧ t0 = pre2 ++ rest2 ∧ rest2.length ≤ k := by
+            ∧ LitState t0 pre2 s2 ∧ s.pos < s2.pos ∧ t0 = pre2 ++ rest2 ∧ rest2.length ≤ k
+            ∧ s2.delimiters = s.delimiters ∧ s2.metas = s.metas := by
           by_cases hc : isAsciiPunct c = true
-          · obtain ⟨s2, h1, h2, h3⟩ := step_punct mid post hmid t0 pre rest' c hc ht0 s h
-            exact ⟨s2, pre ++ [c], rest', h1, h2, h3, by rw [ht0]; simp, by simp at hl; omega⟩
+          · obtain ⟨s2, h1, h2, h3, h4, h5⟩ := step_punct mid post hmid t0 pre rest' c hc ht0 s h
+            exact ⟨s2, pre ++ [c], rest', h1, h2, h3, by rw [ht0]; simp, by simp at hl; omega, h4, h5⟩
           · have hc' : isAsciiPunct c = false := by simpa using hc
             -- the maximal run of plain characters
             let run := (c :: rest').takeWhile (fun x => !isAsciiPunct x)
@@ -264,19 +272,19 @@ theorem loop_literal (mid post : List IRule) (hmid : ∀ m ∈ mid, DeclinesAtBa
                 right
                 have := dropWhile_head (fun x => !isAsciiPunct x) (c :: rest') d r hr
                 exact ⟨d, r, rfl, by simpa using this⟩
-            obtain ⟨s2, h1, h2, h3⟩ := step_plain (mid ++ ruleEscape :: post) t0 pre run r2 hrun hplain hr2
+            obtain ⟨s2, h1, h2, h3, h4, h5⟩ := step_plain (mid ++ ruleEscape :: post) t0 pre run r2 hrun hplain hr2
               (by rw [ht0, hsplit, List.append_assoc]) s h
-            refine ⟨s2, pre ++ run, r2, h1, h2, h3, by rw [ht0, hsplit, List.append_assoc], ?_⟩
+            refine ⟨s2, pre ++ run, r2, h1, h2, h3, by rw [ht0, hsplit, List.append_assoc], ?_, h4, h5⟩
             have hlen := congrArg List.length hsplit
             simp only [List.length_append, List.length_cons] at hlen hl
             have : 0 < run.length := length_pos_of_ne run hrun
             omega
-        obtain ⟨s2, pre2, rest2, hc1, hc2, hc3, hc4, hc5⟩ := hstep
+        obtain ⟨s2, pre2, rest2, hc1, hc2, hc3, hc4, hc5, hc6, hc7⟩ := hstep
         have hpm : s2.posMax = s.posMax := by rw [hc2.posMax, hc2.src, h.posMax, h.src]
         simp only [tokenizeLoop, hposlt, if_true, hlvl, hc1]
         by_cases hend : s2.pos ≥ s.posMax
         · simp only [hend, if_true]
-          refine ⟨s2, rfl, ?_⟩
+          refine ⟨s2, rfl, ?_, hc6, hc7⟩
           -- the position reached the end: nothing is left
           have hr2 : rest2 = [] := by
             cases rest2 with
@@ -295,8 +303,8 @@ theorem loop_literal (mid post : List IRule) (hmid : ∀ m ∈ mid, DeclinesAtBa
         · simp only [hend, if_false]
           have hnle : ¬ (s2.pos ≤ s.pos) := by omega
           simp only [hnle, if_false]
-          have := ih rest2 pre2 s2 f true hc5 hc4 hc2 (by rw [hpm]; omega)
-          rw [hpm] at this
-          exact this
+          obtain ⟨s', e1, e2, e3, e4⟩ := ih rest2 pre2 s2 f true hc5 hc4 hc2 (by rw [hpm]; omega)
+          rw [hpm] at e1
+          exact ⟨s', e1, e2, e3.trans hc6, e4.trans hc7⟩
 
 end MdIt
